@@ -34,6 +34,11 @@ class HarnessLimit(BaseException):
     inside nfc can swallow it)"""
 
 
+class WouldBlock(HarnessLimit):
+    """clf.lock is held by 'another thread' (the harness standing in for it):
+    a blocking acquire would wait - the correct behaviour of an entry point"""
+
+
 NFC_DIR = os.sep + "nfc" + os.sep
 
 
@@ -128,8 +133,9 @@ class RecDevice(nfc.clf.device.Device):
     # ------------------------------------------------------------ recording
     def _enter(self, method, *args):
         clf = self.clf
-        locked = bool(clf is not None and clf.lock.locked())
+        locked = bool(clf is not None and lock_held_by_caller(clf.lock))
         current = bool(clf is not None and clf.device is self)
+        self.lock_owner = lock_owner(clf.lock) if clf is not None else None
         fn, line, chain = clf_site()
         self.ncalls += 1
         self.trace.add("drv", method, [summary(a) for a in args], locked,
@@ -282,6 +288,7 @@ class T2TagEnv(Env):
     before the tag shows up.  Any mute()/sense/listen deselects the tag
     (device.py: "target becomes invalid")."""
     UID = [0x08, 0x5A, 0xC3, 0x17]
+    SEL_RES = 0x00
 
     def __init__(self, sx, trace, max_reads=2, appear=0,
                  gone_kinds=("timeout", "nak", "crc")):
@@ -316,7 +323,7 @@ class T2TagEnv(Env):
             return None
         found = nfc.clf.RemoteTarget(
             "106A", sens_res=self.sx.mkbytes([0x44, 0x00]),
-            sel_res=self.sx.mkbytes([0x00]), sdd_res=uid)
+            sel_res=self.sx.mkbytes([self.SEL_RES]), sdd_res=uid)
         self.selected = found
         self.found.append(found)
         self.trace.add("env", "found", found)
@@ -343,6 +350,53 @@ class T2TagEnv(Env):
                 raise nfc.clf.TransmissionError("crc")
             raise nfc.clf.TimeoutError("silent")
         raise nfc.clf.TimeoutError("unsupported command: tag goes mute")
+
+
+class T4ATagEnv(T2TagEnv):
+    """A minimal Type 4A Tag (SEL_RES bit 5): activation really talks to the
+    driver.  RATS (E0h) is answered with ATS 05 78 80 40 02; the FIRST RATS of
+    a run is picked to fail with one of the CommunicationError subclasses
+    (silence, garbled answer, protocol error) - the tag then needs a new
+    discovery round and answers normally.  The ISO-DEP presence check R(NAK)
+    (B2h/B3h) is answered R(ACK) like the READ of the Type 2 script
+    (present `max_reads` times at most, then gone)."""
+    SEL_RES = 0x20
+
+    def __init__(self, sx, trace, max_reads=1, appear=0, faults=(
+            "ok", "timeout", "crc", "protocol")):
+        T2TagEnv.__init__(self, sx, trace, max_reads=max_reads, appear=appear,
+                          gone_kinds=("timeout",))
+        self.faults = list(faults)
+        self.nrats = 0
+
+    def cmd(self, target, data, timeout):
+        if self.gone or self.selected is None or target is not self.selected:
+            raise nfc.clf.TimeoutError("no tag")
+        if len(data) == 2 and data[0] == 0xE0:
+            i = self.nrats
+            self.nrats += 1
+            what = self.sx.pick("t4.rats", self.faults) if i == 0 else "ok"
+            if what == "ok":
+                self.trace.add("env", "rats-ok")
+                return self.sx.mkbytes([0x05, 0x78, 0x80, 0x40, 0x02])
+            self.selected = None
+            self.trace.add("env", "activation-fault", what)
+            if what == "crc":
+                raise nfc.clf.TransmissionError("crc")
+            if what == "protocol":
+                raise nfc.clf.ProtocolError("frame")
+            raise nfc.clf.TimeoutError("silent")
+        if len(data) == 1 and data[0] & 0xFE == 0xB2:
+            i = self.nread
+            self.nread += 1
+            what = self.sx.pick("t4.nak#%d" % i,
+                                (["ok"] if i < self.max_reads else []) + ["gone"])
+            if what == "ok":
+                self.trace.add("env", "read-ok")
+                return self.sx.mkbytes([0xA2 | (data[0] & 1)])
+            self.gone = True
+            self.trace.add("env", "gone", "gone:timeout")
+        raise nfc.clf.TimeoutError("silent")
 
 
 class ReaderEnv(Env):
@@ -454,9 +508,11 @@ class PeerEnv(Env):
     NFCID3 = [0x01, 0xFE, 0x11, 0x22, 0x33, 0x44, 0x55, 0x66, 0x53, 0x54]
 
     def __init__(self, sx, trace, role, max_idle=0, max_symm=2,
-                 ends=("timeout", "dsl", "disc"), sym_lto=False, magic=True):
+                 ends=("timeout", "dsl", "disc"), sym_lto=False, magic=True,
+                 always_symm=False):
         Env.__init__(self, sx, trace)
         self.role = role
+        self.always_symm = always_symm
         self.max_idle = max_idle
         self.max_symm = max_symm
         self.ends = list(ends)
@@ -575,7 +631,10 @@ class PeerEnv(Env):
             i = self.nsymm
             self.nsymm += 1
             opts = (["symm"] if i < self.max_symm else [])
-            what = sx.pick("peer.res#%d" % i, opts + ["end"])
+            if self.always_symm and opts:
+                what = "symm"
+            else:
+                what = sx.pick("peer.res#%d" % i, opts + ["end"])
             if what == "symm":
                 self.trace.add("env", "peer-symm")
                 return sx.mkbytes([0x06, 0xD5, 0x07, pfb & 3] + SYMM)
@@ -669,33 +728,69 @@ class SlotEnv(Env):
 # frontend construction
 # ----------------------------------------------------------------------------
 class GuardLock(object):
-    """clf.lock with a deadlock detector.  Same interface and semantics as
-    the threading.Lock it wraps; the harness is single threaded, so acquiring
-    it while it is held can never succeed - instead of blocking the check for
-    ever this raises HarnessLimit (and counts the event)."""
+    """clf.lock with an owner tag and a deadlock detector.  Same interface and
+    semantics as the threading.Lock it wraps.  The harness is single
+    threaded: the lock is owned either by the 'caller' (the code under test
+    took it) or by 'other' (the harness took it with hold_as_other(), standing
+    for another application thread that is inside a driver call).  A blocking
+    acquire of a held lock can never succeed here; instead of blocking the
+    check for ever it raises WouldBlock (held by 'other': the entry point
+    correctly waits) or HarnessLimit (held by the caller itself: deadlock).
+    A non-blocking acquire of a held lock returns False like the real one and
+    leaves the owner unchanged - so it does not count as 'held by caller'."""
 
     def __init__(self):
         import threading
         self._lock = threading.Lock()
+        self.owner = None
         self.deadlocks = 0
+        self.blocked = 0
 
     def acquire(self, blocking=True, timeout=-1):
-        if self._lock.locked() and blocking:
+        if self._lock.locked():
+            if not blocking:
+                return False
+            if self.owner == "other":
+                self.blocked += 1
+                raise WouldBlock("clf.lock is held by another thread")
             self.deadlocks += 1
             raise HarnessLimit("clf.lock acquired while held: deadlock")
-        return self._lock.acquire(blocking, timeout)
+        r = self._lock.acquire(blocking, timeout)
+        if r:
+            self.owner = "caller"
+        return r
 
     def release(self):
         self._lock.release()
+        self.owner = None
 
     def locked(self):
         return self._lock.locked()
+
+    def hold_as_other(self):
+        assert not self._lock.locked()
+        self._lock.acquire()
+        self.owner = "other"
+
+    def release_other(self):
+        if self._lock.locked() and self.owner == "other":
+            self.release()
 
     def __enter__(self):
         return self.acquire()
 
     def __exit__(self, *exc):
         self.release()
+
+
+def lock_owner(lock):
+    if not lock.locked():
+        return None
+    return getattr(lock, "owner", "caller")
+
+
+def lock_held_by_caller(lock):
+    return lock.locked() and getattr(lock, "owner", "caller") == "caller"
 
 
 def new_frontend():
@@ -725,7 +820,8 @@ def open_frontend(clf, dev, path="rec"):
     dev.clf = clf
 
     def connect(p):
-        locked = clf.lock.locked()
+        locked = lock_held_by_caller(clf.lock)
+        dev.lock_owner = lock_owner(clf.lock)
         fn, line, chain = clf_site(1)
         dev.trace.add("drv", "connect", [p], locked, clf.device is None, fn,
                       line, chain)
